@@ -457,3 +457,28 @@ Proof.
   - cbn [evalX xbin]. rewrite u_pm1_mid. cbn [Xmul Xadd]. reflexivity.
   - rewrite rcmp_le_true by lra. constructor.
 Qed.
+
+(* ---- evals-form corollaries ------------------------------------------------------------------------------ *)
+Theorem knuth_loop_words fuel t el p result ws x rest : evals (knuth_loop fuel t el p result ws) (x, rest) ->
+  result - 1 <= x < result - 1 + Z.of_nat fuel /\ length ws = (length rest + Z.to_nat (x - (result - 1)))%nat.
+Proof.
+  intros E. pose proof (allout_evals _ _ _ _ (knuth_loop_spec fuel t el p result ws) E) as (A & B & C).
+  cbn [fst snd] in A, B, C. split; [lia|exact C].
+Qed.
+Theorem std_geometric_loop_words fuel result ws x rest : Forall word ws ->
+  evals (std_geometric_loop fuel result ws) (x, rest) ->
+  result <= x /\ (x - result) / 64 < Z.of_nat fuel /\
+  length ws = (length rest + Z.to_nat ((x - result) / 64) + 1)%nat.
+Proof. intros Hw E. exact (allout_evals _ _ _ _ (std_geometric_loop_spec fuel result ws Hw) E). Qed.
+
+(* HIN as called by `hypergeometric`: one uniform draw, then the loop: exactly one word is consumed, the
+   only failure is the missing word, and x0 <= result <= min(n1,k) *)
+Theorem hin_one_word n1 n2 k p x0 ws : x0 <= Z.min n1 k ->
+  allout (fun q => length ws = S (length (snd q)) /\ x0 <= fst q <= Z.min n1 k) (fun c => c = 1 /\ ws = [])
+         ((u <- draw_std F64 ;; hin_loop (Z.to_nat (Z.min n1 k - x0) + 2) n1 n2 k u p x0) ws).
+Proof.
+  intros H. destruct ws as [|w ws']; lstep; [split; reflexivity|].
+  eapply allout_mono; [| |apply hin_loop_spec; lia].
+  - intros [x rest]; cbn [fst snd length]. intros [-> B]. split; [reflexivity|lia].
+  - intros c [].
+Qed.
